@@ -1,5 +1,5 @@
 (** C01, amount layer: proofs about [Model/CommitAmounts.v] and the generated fee functions. *)
-Require Import LdkV.Prim.U64 LdkV.Prim.Rs2vLib LdkV.Gen.C01Consts LdkV.Gen.C01Fees LdkV.Gen.C01TxBuilder
+Require Import LdkV.Prim.U64 LdkV.Prim.Rs2vLib LdkV.Gen.Consts LdkV.Gen.ChanUtilsFees LdkV.Gen.TxBuilder
   LdkV.Model.CommitAmounts.
 From Coq Require Import Permutation.
 Open Scope Z_scope.
@@ -471,7 +471,7 @@ Lemma is_dust_agree ct local fr dust outbound amt :
   bc_is_dust ct fr dust (Bool.eqb outbound local) amt
   = is_dust (mkHTLCAmountDirection outbound amt) local fr dust ct.
 Proof.
-  intros Hz. unfold bc_is_dust, is_dust, second_stage_tx_fees_sat. cbn [had_outbound had_amount_msat].
+  intros Hz. unfold bc_is_dust, is_dust, second_stage_tx_fees_sat. cbn [htlc_outbound htlc_amount_msat].
   destruct (ctf_supports_anchors_zero_fee_htlc_tx ct) eqn:Ea; cbn [orb].
   - destruct (Bool.eqb outbound local); reflexivity.
   - destruct (ctf_supports_anchor_zero_fee_commitments ct) eqn:Ez.
